@@ -34,15 +34,15 @@ def alpn_class(a):
 # ---------------------------------------------------------------------------
 # shared pieces
 # ---------------------------------------------------------------------------
-def _segmentation(r, first_len_hint=300):
+def _segmentation(r, first_len_hint=300, lo=1):
     x = r.random()
     cuts, gaps = [], []
     if x < 0.35:
         pass
     elif x < 0.5:
-        cuts = list(range(1, r.choice([4, 6, 12])))          # byte-wise start (record header split)
+        cuts = list(range(lo, lo + r.choice([3, 5, 11])))          # byte-wise start (record header split)
     else:
-        cuts = sorted({r.randrange(1, first_len_hint) for _ in range(r.randint(1, 5))})
+        cuts = sorted({r.randrange(lo, first_len_hint) for _ in range(r.randint(1, 5))})
     if cuts:
         gaps = [r.choice([0, 0, 0.001, 0.02, 0.2]) for _ in range(len(cuts) + 1)]
     seg = r.choice([0, 0, 0, 1400, 500, 97])
@@ -64,7 +64,7 @@ def _origin(r, host, port, cert, alpn):
 
 
 def _flow(r, host, port, sni, verify, offers, **kw):
-    cuts, gaps, seg = _segmentation(r, 250)
+    cuts, gaps, seg = _segmentation(r, 250, 3)
     f = {"start": 0.0, "host": host, "port": port, "sni": sni, "verify": verify, "backend": "py", "offers": offers,
          "tls12": r.random() < 0.2, "cuts": cuts, "gaps": gaps, "seg": seg, "gap": r.choice([0, 0, 0.001]), "req": True}
     f.update(kw)
@@ -72,7 +72,7 @@ def _flow(r, host, port, sni, verify, offers, **kw):
 
 
 def _outer(r, offers=None):
-    cuts, gaps, _ = _segmentation(r, 250)
+    cuts, gaps, _ = _segmentation(r, 250, 3)
     sni = r.choice(["proxy.test", "proxy.test", None, "secure-proxy.corp.example.net"])
     return {"sni": sni, "verify": sni or PROXY_IP, "offers": ["http/1.1"] if offers is None else offers,
             "cuts": cuts, "gaps": gaps, "tls12": r.random() < 0.2}
@@ -244,7 +244,8 @@ SNI_FORMS = {
     "wildcard_literal": "*.example.com",
     "empty_label": "www..example.com",
 }
-INVALID_FORMS = {"label64", "name254", "wildcard_literal", "empty_label"}
+# trailing_dot: RFC 6066 section 3 — HostName is sent "without a trailing dot"
+INVALID_FORMS = {"label64", "name254", "wildcard_literal", "empty_label", "trailing_dot"}
 OSSL_FORMS = {"ipv4", "ipv6", "ipv6_full", "ipv4_mapped", "label64", "name254", "empty_label"}
 SNI_WEIGHTS = {"simple": 6, "no_sni": 6, "ipv4": 4, "ipv6": 4, "idn_ulabel": 4, "idn_alabel": 3, "label63": 3,
                "name253": 3, "mixed_case": 3}
